@@ -13,7 +13,8 @@ def WGT(i, j):
     return 16.0 / 27.0 if i == j else 2 * (16.0 / 27.0)
 '''
 
-contract('gnpy.core.science_utils.NliSolver._psi', props=['C03'],
+contract('gnpy.core.science_utils.NliSolver._psi', props=['C03', 'C01', 'C02'],
+         prop_clauses={'C01': ['non_negative', 'nli_nonneg', 'nonneg'], 'C02': ['non_negative', 'nli_nonneg', 'nonneg']},
          params={'df': mat('n'), 'baud_rate': vec('n'), 'beta2': vec('n'), 'effective_length': vec('n'),
                  'asymptotic_length': vec('n')}, spec=SPEC_GN,
          let={'n': 'len(baud_rate)'},
@@ -49,7 +50,8 @@ contract('gnpy.core.science_utils.NliSolver.effective_length', props=['C03'],
          ensures=[('def', 'forall(lambda i: result[i] == (1 - exp(-alpha[i] * length)) / alpha[i], len(alpha))')],
          returns=vec_len('len(alpha)'), pure=True, modifies=[])
 
-contract('gnpy.core.science_utils.NliSolver._gn_analytic', props=['C03'],
+contract('gnpy.core.science_utils.NliSolver._gn_analytic', props=['C03', 'C01', 'C02'],
+         prop_clauses={'C01': ['non_negative', 'nli_nonneg', 'nonneg'], 'C02': ['non_negative', 'nli_nonneg', 'nonneg']},
          params={'spectral_info': SI(), 'fiber': FIBER, 'spm_weight': real(), 'xpm_weight': real()}, spec=SPEC_GN,
          let={'si': 'spectral_info', 'n': 'NCH(spectral_info)', 'a': 'fiber.alpha(spectral_info._frequency)',
               'b2': 'fiber.beta2(spectral_info._frequency)', 'g': 'fiber.gamma(spectral_info._frequency)',
@@ -77,7 +79,8 @@ def ETA(si, fiber, i, j):
     leff = NliSolver.effective_length(a, fiber.params._length)
     return g[i] ** 2 * WGT(i, j) * PSIF(si._df[i, j], si._baud_rate[i], si._baud_rate[j], b2[i], b2[j], leff[j], 1 / a[j]) / si._baud_rate[j] ** 2
 '''
-contract('gnpy.core.science_utils.NliSolver.compute_nli', props=['C03'],
+contract('gnpy.core.science_utils.NliSolver.compute_nli', props=['C03', 'C01', 'C02'],
+         prop_clauses={'C01': ['non_negative', 'nli_nonneg', 'nonneg'], 'C02': ['non_negative', 'nli_nonneg', 'nonneg']},
          params={'spectral_info': SI(), 'srs': obj('<ns>'), 'fiber': FIBER}, spec=SPEC_NLI, overrides=SIMP_OFF,
          let={'si': 'spectral_info', 'n': 'NCH(spectral_info)'},
          requires=[('inv', 'INV(spectral_info)'),
